@@ -247,8 +247,60 @@ enum Handle {
 }
 
 struct TimerRec {
-    h: Handle,
+    /// `None`: the `JoinHandle` was dropped (the task is detached)
+    h: Option<Handle>,
+    /// taken at creation: aborts also after the `JoinHandle` is gone, and tells whether the task is finished
+    ah: tokio::task::AbortHandle,
     res: Option<String>,
+}
+
+impl TimerRec {
+    fn new(h: Handle) -> TimerRec {
+        let ah = match &h {
+            Handle::Send(j) => j.abort_handle(),
+            Handle::SendD(j) => j.abort_handle(),
+            Handle::Unit(j) => j.abort_handle(),
+        };
+        TimerRec { h: Some(h), ah, res: None }
+    }
+    /// `JoinHandle::abort` while the handle is held, `AbortHandle::abort` after it was dropped
+    fn abort(&self) {
+        match &self.h {
+            Some(Handle::Send(h)) => h.abort(),
+            Some(Handle::SendD(h)) => h.abort(),
+            Some(Handle::Unit(h)) => h.abort(),
+            None => self.ah.abort(),
+        }
+    }
+}
+
+/// period sentinel: `Duration::MAX` (not a whole number of µs that fits u64)
+const PMAX: u64 = u64::MAX;
+/// the largest period expressible in µs: `Duration::from_micros(u64::MAX - 1)` ≈ 584 542 years
+const PHUGE: u64 = u64::MAX - 1;
+
+fn dur(p: u64) -> Duration {
+    if p == PMAX {
+        Duration::MAX
+    } else {
+        Duration::from_micros(p)
+    }
+}
+
+/// the period in µs as the model sees it
+fn ptxt(p: u64) -> String {
+    dur(p).as_micros().to_string()
+}
+
+fn pparse(w: &str) -> Option<u64> {
+    let v = w.parse::<u128>().ok()?;
+    if v == Duration::MAX.as_micros() {
+        Some(PMAX)
+    } else if v < PMAX as u128 {
+        Some(v as u64)
+    } else {
+        None
+    }
 }
 
 #[derive(Clone, Debug)]
@@ -281,23 +333,27 @@ enum Op {
     /// gate `post_stop` / open the gate
     Hold,
     PsRelease,
+    /// drop the `JoinHandle` of timer i (of a timer not yet created: it is dropped at creation, "fire and forget")
+    Drop(usize),
+    /// clock += d, then drop, before the time driver runs
+    AdvDrop(u64, usize),
 }
 
 impl Op {
     fn text(&self) -> String {
         match self {
-            Op::Sa(p) => format!("sa {p}"),
-            Op::Si(p) => format!("si {p}"),
-            Op::Dsa(p) => format!("dsa {p}"),
-            Op::Dsi(p) => format!("dsi {p}"),
-            Op::Ea(p) => format!("ea {p}"),
-            Op::Ka(p) => format!("ka {p}"),
-            Op::Dea(p) => format!("dea {p}"),
-            Op::Dka(p) => format!("dka {p}"),
-            Op::Csa(p) => format!("csa {p}"),
-            Op::Csi(p) => format!("csi {p}"),
-            Op::Cea(p) => format!("cea {p}"),
-            Op::Cka(p) => format!("cka {p}"),
+            Op::Sa(p) => format!("sa {}", ptxt(*p)),
+            Op::Si(p) => format!("si {}", ptxt(*p)),
+            Op::Dsa(p) => format!("dsa {}", ptxt(*p)),
+            Op::Dsi(p) => format!("dsi {}", ptxt(*p)),
+            Op::Ea(p) => format!("ea {}", ptxt(*p)),
+            Op::Ka(p) => format!("ka {}", ptxt(*p)),
+            Op::Dea(p) => format!("dea {}", ptxt(*p)),
+            Op::Dka(p) => format!("dka {}", ptxt(*p)),
+            Op::Csa(p) => format!("csa {}", ptxt(*p)),
+            Op::Csi(p) => format!("csi {}", ptxt(*p)),
+            Op::Cea(p) => format!("cea {}", ptxt(*p)),
+            Op::Cka(p) => format!("cka {}", ptxt(*p)),
             Op::Adv(d) => format!("adv {d}"),
             Op::AdvAbort(d, i) => format!("advabort {d} {i}"),
             Op::AdvStop(d) => format!("advstop {d}"),
@@ -309,24 +365,27 @@ impl Op {
             Op::Drain => "drain".into(),
             Op::Hold => "hold".into(),
             Op::PsRelease => "psrelease".into(),
+            Op::Drop(i) => format!("drop {i}"),
+            Op::AdvDrop(d, i) => format!("advdrop {d} {i}"),
         }
     }
     fn parse(s: &str) -> Option<Op> {
         let w: Vec<&str> = s.split_whitespace().filter(|w| !w.starts_with("h=")).collect();
         let n = |i: usize| w.get(i).and_then(|x| x.parse::<u64>().ok());
+        let pp = |i: usize| w.get(i).and_then(|x| pparse(x));
         Some(match *w.first()? {
-            "sa" => Op::Sa(n(1)?),
-            "si" => Op::Si(n(1)?),
-            "dsa" => Op::Dsa(n(1)?),
-            "dsi" => Op::Dsi(n(1)?),
-            "ea" => Op::Ea(n(1)?),
-            "ka" => Op::Ka(n(1)?),
-            "dea" => Op::Dea(n(1)?),
-            "dka" => Op::Dka(n(1)?),
-            "csa" => Op::Csa(n(1)?),
-            "csi" => Op::Csi(n(1)?),
-            "cea" => Op::Cea(n(1)?),
-            "cka" => Op::Cka(n(1)?),
+            "sa" => Op::Sa(pp(1)?),
+            "si" => Op::Si(pp(1)?),
+            "dsa" => Op::Dsa(pp(1)?),
+            "dsi" => Op::Dsi(pp(1)?),
+            "ea" => Op::Ea(pp(1)?),
+            "ka" => Op::Ka(pp(1)?),
+            "dea" => Op::Dea(pp(1)?),
+            "dka" => Op::Dka(pp(1)?),
+            "csa" => Op::Csa(pp(1)?),
+            "csi" => Op::Csi(pp(1)?),
+            "cea" => Op::Cea(pp(1)?),
+            "cka" => Op::Cka(pp(1)?),
             "adv" => Op::Adv(n(1)?),
             "advabort" => Op::AdvAbort(n(1)?, n(2)? as usize),
             "advstop" => Op::AdvStop(n(1)?),
@@ -338,6 +397,8 @@ impl Op {
             "drain" => Op::Drain,
             "hold" => Op::Hold,
             "psrelease" => Op::PsRelease,
+            "drop" => Op::Drop(n(1)? as usize),
+            "advdrop" => Op::AdvDrop(n(1)?, n(2)? as usize),
             _ => return None,
         })
     }
@@ -402,10 +463,14 @@ async fn run_case(tl: bool, ops: &[Op]) -> Vec<String> {
     };
     quiesce().await;
     let mut timers: Vec<TimerRec> = Vec::new();
+    // handles dropped before their timer exists: dropped at creation ("fire and forget")
+    let mut predropped: std::collections::HashSet<usize> = Default::default();
     let mut out = Vec::new();
     let (mut n_att, mut n_hd) = (0usize, 0usize);
     for op in ops {
-        let ms = Duration::from_micros; // every op parameter is in µs
+        let ms = dur; // every op parameter is in µs
+        let adv_d = Duration::from_micros;
+        let n_before = timers.len();
         match op {
             Op::Sa(p) => {
                 let id = timers.len() as u32;
@@ -414,7 +479,7 @@ async fn run_case(tl: bool, ops: &[Op]) -> Vec<String> {
                     s2.lock().unwrap().attempts.push((id, 1, now_ms(t)));
                     (id, 1)
                 });
-                timers.push(TimerRec { h: Handle::Send(h), res: None });
+                timers.push(TimerRec::new(Handle::Send(h)));
             }
             Op::Si(p) => {
                 let id = timers.len() as u32;
@@ -425,7 +490,7 @@ async fn run_case(tl: bool, ops: &[Op]) -> Vec<String> {
                     s2.lock().unwrap().attempts.push((id, kk, now_ms(t)));
                     (id, kk)
                 });
-                timers.push(TimerRec { h: Handle::Unit(h), res: None });
+                timers.push(TimerRec::new(Handle::Unit(h)));
             }
             Op::Dsa(p) => {
                 let id = timers.len() as u32;
@@ -435,7 +500,7 @@ async fn run_case(tl: bool, ops: &[Op]) -> Vec<String> {
                     s2.lock().unwrap().attempts.push((id, 1, now_ms(t)));
                     DMsg(id, 1)
                 });
-                timers.push(TimerRec { h: Handle::SendD(h), res: None });
+                timers.push(TimerRec::new(Handle::SendD(h)));
             }
             Op::Dsi(p) => {
                 let id = timers.len() as u32;
@@ -447,17 +512,17 @@ async fn run_case(tl: bool, ops: &[Op]) -> Vec<String> {
                     s2.lock().unwrap().attempts.push((id, kk, now_ms(t)));
                     DMsg(id, kk)
                 });
-                timers.push(TimerRec { h: Handle::Unit(h), res: None });
+                timers.push(TimerRec::new(Handle::Unit(h)));
             }
-            Op::Ea(p) => timers.push(TimerRec { h: Handle::Unit(target.exit_after(ms(*p))), res: None }),
-            Op::Ka(p) => timers.push(TimerRec { h: Handle::Unit(target.kill_after(ms(*p))), res: None }),
+            Op::Ea(p) => timers.push(TimerRec::new(Handle::Unit(target.exit_after(ms(*p))))),
+            Op::Ka(p) => timers.push(TimerRec::new(Handle::Unit(target.kill_after(ms(*p))))),
             Op::Dea(p) => {
                 let d = target.get_derived::<DMsg>();
-                timers.push(TimerRec { h: Handle::Unit(d.exit_after(ms(*p))), res: None })
+                timers.push(TimerRec::new(Handle::Unit(d.exit_after(ms(*p)))))
             }
             Op::Dka(p) => {
                 let d = target.get_derived::<DMsg>();
-                timers.push(TimerRec { h: Handle::Unit(d.kill_after(ms(*p))), res: None })
+                timers.push(TimerRec::new(Handle::Unit(d.kill_after(ms(*p)))))
             }
             Op::Csa(p) => {
                 let id = timers.len() as u32;
@@ -466,7 +531,7 @@ async fn run_case(tl: bool, ops: &[Op]) -> Vec<String> {
                     s2.lock().unwrap().attempts.push((id, 1, now_ms(t)));
                     (id, 1)
                 });
-                timers.push(TimerRec { h: Handle::Send(h), res: None });
+                timers.push(TimerRec::new(Handle::Send(h)));
             }
             Op::Csi(p) => {
                 let id = timers.len() as u32;
@@ -477,22 +542,33 @@ async fn run_case(tl: bool, ops: &[Op]) -> Vec<String> {
                     s2.lock().unwrap().attempts.push((id, kk, now_ms(t)));
                     (id, kk)
                 });
-                timers.push(TimerRec { h: Handle::Unit(h), res: None });
+                timers.push(TimerRec::new(Handle::Unit(h)));
             }
             Op::Cea(p) => {
-                timers.push(TimerRec { h: Handle::Unit(ractor::time::exit_after(ms(*p), target.get_cell())), res: None })
+                timers.push(TimerRec::new(Handle::Unit(ractor::time::exit_after(ms(*p), target.get_cell()))))
             }
             Op::Cka(p) => {
-                timers.push(TimerRec { h: Handle::Unit(ractor::time::kill_after(ms(*p), target.get_cell())), res: None })
+                timers.push(TimerRec::new(Handle::Unit(ractor::time::kill_after(ms(*p), target.get_cell()))))
             }
-            Op::Adv(d) => tokio::time::advance(ms(*d)).await,
+            Op::Adv(d) => tokio::time::advance(adv_d(*d)).await,
             Op::AdvAbort(d, i) => {
                 bump_clock(*d).await;
                 if let Some(t) = timers.get(*i) {
-                    match &t.h {
-                        Handle::Send(h) => h.abort(),
-                        Handle::SendD(h) => h.abort(),
-                        Handle::Unit(h) => h.abort(),
+                    t.abort();
+                }
+            }
+            Op::Drop(i) => match timers.get_mut(*i) {
+                Some(t) => t.h = None,
+                None => {
+                    predropped.insert(*i);
+                }
+            },
+            Op::AdvDrop(d, i) => {
+                bump_clock(*d).await;
+                match timers.get_mut(*i) {
+                    Some(t) => t.h = None,
+                    None => {
+                        predropped.insert(*i);
                     }
                 }
             }
@@ -521,11 +597,7 @@ async fn run_case(tl: bool, ops: &[Op]) -> Vec<String> {
             }
             Op::Abort(i) => {
                 if let Some(t) = timers.get(*i) {
-                    match &t.h {
-                        Handle::Send(h) => h.abort(),
-                        Handle::SendD(h) => h.abort(),
-                        Handle::Unit(h) => h.abort(),
-                    }
+                    t.abort();
                 }
             }
             Op::Stop => target.stop(Some("manual".into())),
@@ -540,6 +612,10 @@ async fn run_case(tl: bool, ops: &[Op]) -> Vec<String> {
                 let _ = gate.send_replace(false);
             }
         }
+        // a timer whose handle was given away beforehand: the `JoinHandle` is dropped at once
+        if timers.len() > n_before && predropped.contains(&n_before) {
+            timers[n_before].h = None;
+        }
         // every runnable timer task runs, then the target, then whoever the target woke (its supervisor)
         quiesce().await;
         if let Some(w) = tlw.as_mut() {
@@ -551,7 +627,8 @@ async fn run_case(tl: bool, ops: &[Op]) -> Vec<String> {
             if t.res.is_some() {
                 continue;
             }
-            let fin = match &t.h {
+            let Some(th) = t.h.as_mut() else { continue };
+            let fin = match &*th {
                 Handle::Send(h) => h.is_finished(),
                 Handle::SendD(h) => h.is_finished(),
                 Handle::Unit(h) => h.is_finished(),
@@ -559,7 +636,7 @@ async fn run_case(tl: bool, ops: &[Op]) -> Vec<String> {
             if !fin {
                 continue;
             }
-            let r = match &mut t.h {
+            let r = match th {
                 Handle::Send(h) => match h.await {
                     Ok(Ok(())) => "ok".to_string(),
                     Ok(Err(MessagingErr::SendErr(_))) => "err".to_string(),
@@ -587,7 +664,23 @@ async fn run_case(tl: bool, ops: &[Op]) -> Vec<String> {
         let res = if timers.is_empty() {
             "-".to_string()
         } else {
-            timers.iter().map(|t| t.res.clone().unwrap_or_else(|| "P".into())).collect::<Vec<_>>().join(",")
+            timers
+                .iter()
+                .map(|t| match (&t.h, &t.res) {
+                    // a dropped handle: all its former owner can still learn (through the `AbortHandle`)
+                    // is whether the detached task is gone
+                    (None, _) => {
+                        if t.ah.is_finished() {
+                            "dF".to_string()
+                        } else {
+                            "dP".to_string()
+                        }
+                    }
+                    (Some(_), Some(r)) => r.clone(),
+                    (Some(_), None) => "P".to_string(),
+                })
+                .collect::<Vec<_>>()
+                .join(",")
         };
         let (att, hd, exit, ps) = {
             let s = sh.lock().unwrap();
@@ -608,11 +701,7 @@ async fn run_case(tl: bool, ops: &[Op]) -> Vec<String> {
     }
     // tidy up: nothing may outlive the case
     for t in &timers {
-        match &t.h {
-            Handle::Send(h) => h.abort(),
-            Handle::SendD(h) => h.abort(),
-            Handle::Unit(h) => h.abort(),
-        }
+        t.ah.abort();
     }
     let _ = gate.send_replace(false);
     target.kill();
@@ -653,14 +742,17 @@ fn gen_case(rng: &mut Rng, st: &mut Stats) -> Vec<Op> {
     // and advances that are not whole milliseconds (tokio's wheel rounds deadlines up to 1 ms)
     let fine = rng.chance(1, 2);
     let per: Vec<u64> = if fine {
-        vec![0, 1, 400, 900, 999, 1000, 1001, 1500, 2000, 2500, 2500, 3000, 4700, 8000]
+        vec![0, 1, 400, 900, 999, 1000, 1001, 1500, 2000, 2500, 2500, 3000, 4700, 8000, PMAX]
     } else {
-        [0u64, 0, 1, 1, 2, 3, 3, 5, 8, 13].iter().map(|x| x * 1000).collect()
+        let mut v: Vec<u64> = [0u64, 0, 1, 1, 2, 3, 3, 5, 8, 13].iter().map(|x| x * 1000).collect();
+        v.push(PHUGE);
+        v
     };
     let iper: Vec<u64> = if fine {
-        vec![300, 700, 1000, 1500, 2500, 2500, 3000, 7100]
+        // 0: `interval(Duration::ZERO)` panics inside the task
+        vec![0, 300, 700, 1000, 1500, 2500, 2500, 3000, 7100, PHUGE]
     } else {
-        [1u64, 1, 2, 3, 5, 7].iter().map(|x| x * 1000).collect()
+        [0u64, 1, 1, 2, 3, 5, 7, PMAX].iter().map(|x| if *x == PMAX { PMAX } else { x * 1000 }).collect()
     };
     let adv: Vec<u64> = if fine {
         vec![0, 1, 300, 500, 500, 999, 1000, 1000, 1500, 2000, 2500, 3000, 5000, 10400, 25000]
@@ -724,8 +816,13 @@ fn gen_case(rng: &mut Rng, st: &mut Stats) -> Vec<Op> {
             }
         } else if r < 66 {
             Op::Adv(*rng.pick(&adv))
-        } else if r < 76 {
+        } else if r < 74 {
             Op::AdvAbort(*rng.pick(&adv), rng.below(n_timers as u64) as usize)
+        } else if r < 78 {
+            // sometimes the handle of the NEXT timer: dropped at creation (fire and forget)
+            Op::Drop(rng.below(n_timers as u64 + 1) as usize)
+        } else if r < 80 {
+            Op::AdvDrop(*rng.pick(&adv), rng.below(n_timers as u64) as usize)
         } else if r < 86 {
             Op::Abort(rng.below(n_timers as u64) as usize)
         } else if r < 91 {
@@ -769,6 +866,7 @@ fn ms_case(ops: Vec<Op>) -> Vec<Op> {
             AdvStop(d) => AdvStop(d * 1000),
             AdvKill(d) => AdvKill(d * 1000),
             AdvDrain(d) => AdvDrain(d * 1000),
+            AdvDrop(d, i) => AdvDrop(d * 1000, i),
             o => o,
         })
         .collect()
@@ -840,6 +938,46 @@ fn fixed_cases() -> Vec<Vec<Op>> {
         vec![Cea(7), Cka(7), Adv(7)],
         vec![Kill, Csi(3), Csa(0), Csa(2), Cea(1), Cka(1), Adv(5)],
         vec![Hold, Stop, Csa(0), Csi(2), Adv(2), PsRelease],
+        // send_interval(Duration::ZERO): tokio's interval() panics inside the spawned task
+        vec![Si(0)],
+        vec![Dsi(0)],
+        vec![Csi(0)],
+        vec![Si(0), Adv(5), Abort(0), Abort(0)],
+        vec![Kill, Si(0), Dsi(0)],
+        vec![Sa(5), Si(0), Si(3), Adv(3), Adv(2), Adv(1)],
+        vec![Hold, Stop, Si(0), Csi(0), PsRelease],
+        vec![Si(0), Drop(0), Adv(1)],
+        vec![Drop(0), Si(0), Adv(1)],
+        // dropped handles: the task is detached, not cancelled
+        vec![Sa(5), Drop(0), Adv(4), Adv(1), Adv(1)],
+        vec![Sa(5), AdvDrop(5, 0), Adv(1)],
+        vec![Sa(5), Adv(5), Drop(0), Adv(1)],
+        vec![Sa(5), Adv(6), Drop(0)],
+        vec![Drop(0), Sa(5), Adv(5)],
+        vec![Sa(5), Sa(5), AdvDrop(5, 0), Abort(1)],
+        vec![Sa(5), Sa(5), Drop(0), AdvAbort(5, 1), Adv(1)],
+        vec![Sa(5), Sa(5), Adv(4), Drop(0), Abort(1), Adv(1)],
+        // ... an AbortHandle taken before the drop still cancels
+        vec![Sa(5), Drop(0), Abort(0), Adv(5)],
+        vec![Sa(5), Drop(0), AdvAbort(5, 0), Adv(1)],
+        vec![Sa(5), Drop(0), Adv(5), Abort(0)],
+        vec![Si(3), Drop(0), Adv(3), Adv(3), Kill, Adv(3), Adv(3)],
+        vec![Si(3), Adv(3), AdvDrop(3, 0), Adv(3), Abort(0), Adv(3)],
+        vec![Dsi(2), Dsa(5), Drop(0), Drop(1), Adv(5), Stop, Adv(2)],
+        vec![Csi(2), Csa(5), Drop(1), Drop(0), Adv(5), Drain, Adv(2)],
+        vec![Ea(7), Drop(0), Adv(6), Adv(1)],
+        vec![Ka(2), AdvDrop(2, 0)],
+        vec![Dea(7), Dka(9), Drop(0), Drop(1), Adv(7)],
+        vec![Ea(7), Drop(0), AdvAbort(7, 0), Adv(1)],
+        vec![Sa(5), Kill, Drop(0), Adv(5)],
+        vec![Hold, Sa(2), Si(1), Drop(0), Drop(1), Stop, Adv(2), PsRelease],
+        // abort after completion (no effect), abort twice
+        vec![Sa(5), Adv(5), Abort(0), Abort(0), Adv(1)],
+        vec![Sa(5), Abort(0), Abort(0), Adv(5)],
+        vec![Sa(5), AdvAbort(5, 0), Abort(0), AdvAbort(1, 0)],
+        vec![Si(3), Adv(3), Kill, Adv(3), Abort(0), Abort(0)],
+        vec![Ea(7), Adv(7), Abort(0)],
+        vec![Ka(2), Abort(0), AdvAbort(2, 0), Adv(1)],
         // the target sits in a gated post_stop (stopped accepting, not gone)
         vec![Si(3), Hold, Adv(1), Stop, Sa(2), Adv(2), Adv(4), PsRelease],
         vec![Hold, Stop, Sa(0)],
@@ -886,6 +1024,15 @@ fn fixed_cases() -> Vec<Vec<Op>> {
         vec![Cea(2500), Adv(2000), Adv(1000)],
         vec![Adv(1500), Csa(700), Cka(1500), Adv(500), Adv(500), Adv(500), Adv(500)],
         vec![Csi(300), Adv(500), Adv(500), Adv(1000)],
+        // period 0 off the millisecond grid: the wheel rounds the deadline up like any other
+        vec![Adv(1500), Sa(0), Ka(0), Adv(499), Adv(1)],
+        vec![Adv(300), Ea(0), Si(0), Adv(700)],
+        // periods beyond any horizon: Duration::MAX (tokio: far_future), u64::MAX - 1 µs; an hour, a day later: nothing
+        vec![Sa(PMAX), Si(PMAX), Ea(PMAX), Ka(PMAX), Adv(3_600_000_000), Adv(1)],
+        vec![Sa(PHUGE), Dsa(PHUGE), Csi(PHUGE), Dsi(PMAX), Adv(86_400_000_000), Kill, Adv(1000)],
+        vec![Dea(PHUGE), Cka(PHUGE), Cea(PMAX), Dka(PMAX), Adv(1000), Stop, Adv(1000)],
+        vec![Sa(PMAX), Abort(0), Ea(PHUGE), Drop(1), Adv(1000), Abort(1)],
+        vec![Sa(5000), Si(PHUGE), Ka(PMAX), Adv(5000), AdvAbort(1000, 1), AdvDrop(1000, 2), Adv(1_000_000_000)],
     ]);
     all
 }
@@ -898,6 +1045,15 @@ fn main() {
     let mut rng = Rng::new(seed);
     let mut st = Stats::default();
     let mut log = Log::create(std::path::Path::new(&out)).unwrap();
+    // `send_interval(Duration::ZERO)` panics inside its task (tokio turns it into a JoinError): keep stderr readable
+    let default_hook = std::panic::take_hook();
+    std::panic::set_hook(Box::new(move |info| {
+        let quiet = info.payload().downcast_ref::<&str>().map(|m| m.contains("must be non-zero")).unwrap_or(false)
+            || info.payload().downcast_ref::<String>().map(|m| m.contains("must be non-zero")).unwrap_or(false);
+        if !quiet {
+            default_hook(info);
+        }
+    }));
     // (thread-local target?, ops)
     let mut all: Vec<(bool, Vec<Op>)> = Vec::new();
     // corpus / replay files (one op per line, `case` separates) run first
@@ -949,8 +1105,39 @@ fn main() {
         let mut h: u64 = if *tl { 0x84222325cbf29ce4 } else { 0xcbf29ce484222325 };
         match res {
             Ok(obs) => {
+                let mut prev_res: Vec<String> = Vec::new();
                 for (op, o) in ops.iter().zip(obs.iter()) {
                     let t = op.text();
+                    let cur_res: Vec<String> = o
+                        .split_whitespace()
+                        .find_map(|w| w.strip_prefix("res="))
+                        .map(|r| if r == "-" { Vec::new() } else { r.split(',').map(|x| x.to_string()).collect() })
+                        .unwrap_or_default();
+                    match op {
+                        Op::Abort(i) | Op::AdvAbort(_, i) => match prev_res.get(*i).map(|x| x.as_str()) {
+                            Some("cancelled") => st.bump("abort_of_cancelled_timer"),
+                            Some("P") => st.bump("abort_of_pending_timer"),
+                            Some("dP") => st.bump("abort_of_detached_pending_timer"),
+                            Some(_) => st.bump("abort_after_completion"),
+                            None => st.bump("abort_of_unknown_timer"),
+                        },
+                        Op::Drop(i) | Op::AdvDrop(_, i) => match prev_res.get(*i).map(|x| x.as_str()) {
+                            Some("P") => st.bump("drop_of_pending_timer"),
+                            Some("dP") | Some("dF") => st.bump("drop_twice"),
+                            Some(_) => st.bump("drop_after_completion"),
+                            None => st.bump("drop_before_creation"),
+                        },
+                        _ => {}
+                    }
+                    for (a, b) in prev_res.iter().zip(cur_res.iter()) {
+                        if a == "dP" && b == "dF" {
+                            st.bump(if o.contains("att=-") { "detached_task_ended_without_sending" } else { "detached_task_acted" });
+                        }
+                    }
+                    if cur_res.iter().any(|r| r == "panic") && !prev_res.iter().any(|r| r == "panic") {
+                        st.bump("obs_task_panicked");
+                    }
+                    prev_res = cur_res;
                     for b in t.bytes().chain([b'\n']) {
                         h = (h ^ b as u64).wrapping_mul(0x100000001b3);
                     }
